@@ -447,10 +447,10 @@ class StreamSequence:
         self.replace(stream, self._create_missing_stream())
         
     def clear(self):
+        for i in self._streams: self._undock(i)
         if self._fixed_size:
             self._initialize_missing_streams()
         else:
-            for i in self._streams: self._undock(i)
             self._streams.clear()
     
     def reverse(self):
